@@ -117,6 +117,13 @@ def static_classes(prog):
         if isinstance(n, ast.Try) and n.finalbody:
             if _own(n.finalbody, (ast.Raise,)) and _own(n.body + n.handlers + n.orelse, (ast.Return, ast.Break, ast.Continue)):
                 cls['raise_in_finally_over_jump'] = True
+    # (14) a class body inside the function reads a local of the function: its reads are in no node's Scope (liveness)
+    assigned = set(x.id for x in ast.walk(fn) if isinstance(x, ast.Name) and isinstance(x.ctx, ast.Store)) | set(a.arg for a in fn.args.args)
+    for n in ast.walk(fn):
+        if isinstance(n, ast.ClassDef):
+            reads = set(x.id for st in n.body for x in ast.walk(st) if isinstance(x, ast.Name) and isinstance(x.ctx, ast.Load))
+            if reads & assigned:
+                cls['read_in_class_body'] = sorted(reads & assigned)
     # (9)-(13) construct-specific conversion failures found by the C04 builder's context enumeration
     for n in ast.walk(fn):
         if isinstance(n, ast.Call) and any(isinstance(x, ast.NamedExpr) for a in n.args for x in ast.walk(a)):
@@ -185,7 +192,7 @@ def classify(prog, mod, args, dec, static, orig_outcome=None):
         return 'nested_fn_param_leaks_into_enclosing_bound'
     if 'augassign_value_reads_not_ld_wrapped' in static and orig_outcome == ('exc', 'NameError'):
         return 'augassign_value_reads_not_ld_wrapped'
-    for k in ('namedexpr_in_call_argument', 'call_in_return_annotation_of_nested_def', 'lambda_in_decorator_of_nested_def',
+    for k in ('read_in_class_body', 'namedexpr_in_call_argument', 'call_in_return_annotation_of_nested_def', 'lambda_in_decorator_of_nested_def',
               'set_loop_options_without_arguments', 'docstring_only_function_body',
               'raise_in_finally_over_jump', 'except_handler_binds_name', 'try_else_block_starts_with_if', 'chained_comparison_effectful_middle_operand'):
         if k in static:
